@@ -115,6 +115,9 @@ def validate(module, cfg_consts, traces, modules=None, shards=None, timeout=1800
     for (b, idxs), r in zip([(b, i) for b, i in enumerate(buckets) if i], results):
         errs = r.errors()
         if errs or not r.completed:
+            os.makedirs(os.path.join(common.VERIF, 'out'), exist_ok=True)
+            with open(os.path.join(common.VERIF, 'out', 'last_tlc_error.txt'), 'w') as f:
+                f.write(r.out)
             raise common.MachineryError('TLC failed while validating traces with %s:\n%s' % (module, r.out[-5000:]))
         states += r.distinct
         seen = {}
